@@ -4,10 +4,12 @@ import FqModel.Query
 import FqModel.C11Print
 import FqModel.C11Full
 import FqModel.C11Dir
+import FqModel.C11Lex
 /-!
   driver for C11.  Case lines (harness/cmd/c11/main.go), the observation is one JSON value:
 
     rt <hexprog>                 [A, A2]
+    lx <hextext>                 {"reject":true} | {"a":A,"s":printed text,"b":A2}   (lexer + printer text, FqModel/C11Lex.lean)
     ctor <name> <hexP1> <hexP2>  {"in":[A1,A2],"out":V}
     rw <opts> <hexprog>          {"a":A,"o":OPTS,"r":R,"s":S,"p":RP}
 
@@ -467,6 +469,80 @@ def stepPP (words : List String) (obs : JV) : String :=
 
 end PP
 
+
+/-! ### lx: the Lean lexer (FqModel/C11Lex.lean) + parser against gojq.Parse on program TEXT; printText against
+    `_query_tostring` -/
+namespace LX
+open FqModel.C11.Full FqModel.C11.Lex
+
+/-- token sequences the Lean grammar leaves out (header of FqModel/C11Full.lean): `term . [`, a trailing comma in an
+    object, a program of definitions only -/
+def termEndTok : Tok → Bool
+  | .rparen => true | .rbrack => true | .rbrace => true | .quest => true | .dotdot => true | .dot => true | .strEnd => true
+  | .kw k => isLitKw k || k == .end_
+  | .num _ => true | .str _ => true | .ident _ => true | .var _ => true | .field _ => true | .fmt _ => true
+  | _ => false
+
+def outsideCore : List Tok → Bool
+  | [] => true
+  | ts =>
+    (ts.getLast? == some .semi) ||
+    (let rec go : List Tok → Bool
+      | a :: .dot :: .lbrack :: r => termEndTok a || go (.dot :: .lbrack :: r)
+      | .op .comma :: .rbrace :: _ => true
+      | .op .comma :: .rbrack :: r => go (.rbrack :: r)
+      | _ :: r => go r
+      | [] => false
+    go ts)
+
+def hasDirectives (ts : List Tok) : Bool :=
+  match ts with
+  | .kw .module :: _ => true | .kw .import_ :: _ => true | .kw .include :: _ => true
+  | _ => false
+
+def stepLX (hex : String) (obs : JV) : String :=
+  match bytesOfHex hex with
+  | none => "BADOP hex"
+  | some bs =>
+    let accepted := !(obs.hasKey "reject")
+    -- the property on fq's own observation: the printed text parses back to the same AST
+    let law : Option String :=
+      if !accepted then none
+      else if (obs.get "b").hasKey "reparse_error" then some "printed-form-does-not-parse"
+      else if !(sameStructure (obs.get "a") (obs.get "b")) then some "round-trip-changes-structure"
+      else none
+    match String.fromUTF8? (ByteArray.mk bs.toArray) with
+    | none => finish law none       -- not valid UTF-8: outside the Char-level model, real side only
+    | some text =>
+      let cs := text.toList
+      match lex cs with
+      | none => finish law (if accepted then some "lex-error" else none)
+      | some lt =>
+        let ts := lt.map LTok.cls
+        match FqModel.C11.Dir.parseProg ts with
+        | none =>
+          if accepted && !(outsideCore ts) then finish law (some "reject") else finish law none
+        | some pr =>
+          if !accepted then finish law (some "accept")
+          else
+            let e := pr.body
+            let ws := lt.map fun t => String.ofList (tokText false t)
+            match PP.queryJ e (ws.drop (ws.length - PP.plen e)) with
+            | none => "BADOP model-conversion-failed"
+            | some m =>
+              let m := match PP.metaJ pr.pmeta with | [(k, v)] => m.set k v | _ => m
+              let m := if pr.imports.isEmpty then m else m.set "imports" (.arr (pr.imports.map PP.impJ))
+              if m != obs.get "a" then finish law (some ("a=" ++ m.encode))
+              else if hasDirectives ts then finish law none
+              else
+                let txt := printText e lt
+                -- the theorem's conclusion on this instance (model against itself)
+                if lex txt != some lt then "BADOP model-text-roundtrip-fails"
+                else if obs.get "s" != .str (String.ofList txt) then finish law (some ("s=" ++ String.ofList txt))
+                else finish law none
+
+end LX
+
 def stepC11 (op obs : String) : String :=
   match parseJson obs with
   | none => "BADOP observation-is-not-json"
@@ -475,6 +551,7 @@ def stepC11 (op obs : String) : String :=
     match words op with
     | "pp" :: toks => PP.stepPP toks o
     | ["rt", _] => stepRT o
+    | ["lx", h] => LX.stepLX h o
     | ["ctor", name, h1, _] =>
       match hexText h1 with
       | some p1 => stepCtor name p1 o
